@@ -302,6 +302,30 @@ def run(model: RepoModel, rep, tier: str):
             rep.violation("C10.R5", key, TA, bad[1].lineno,
                           f"{fn} enqueues `{norm(bad[1].args[-1])}` unconditionally: on a cyclic graph the worklist never empties (or, if "
                           f"dedup hides it, nodes are reprocessed without need)")
+    # symbol tags are keyed by symbol id while the work-list is keyed by graph node: a write from a statement that finds the tag already
+    # present must still explore the node if this propagation never processed it.  The statement-level propagation has this fallback at
+    # every symbol write; the sites must agree.
+    f = pf.methods["_propagate_from_stmt"]
+    sites = []
+    for n in walk_no_nested(f.node):
+        if isinstance(n, ast.If) and isinstance(n.test, ast.Compare) and isinstance(n.test.ops[0], ast.NotEq) and isinstance(n.test.left, ast.BinOp) \
+                and isinstance(n.test.left.op, ast.BitOr) and any(isinstance(c, ast.Call) and isinstance(c.func, ast.Attribute) and c.func.attr == "set_symbol_tag"
+                                                                  for b in n.body for c in ast.walk(b)):
+            fb = any(isinstance(c, ast.Call) and is_self_attr(c.func, "_enqueue") for b in n.orelse for c in ast.walk(b)) and \
+                any("_processed_nodes" in norm(x) for b in n.orelse for x in ast.walk(b) if isinstance(x, ast.If))
+            sites.append((n, fb))
+    key = f"{TA}::PathFinder._propagate_from_stmt::never-processed nodes are explored even when the tag is already present"
+    if len(sites) >= 2 and any(fb for _, fb in sites) and not all(fb for _, fb in sites):
+        miss = next(n for n, fb in sites if not fb)
+        rep.violation("C10.R5", key, TA, miss.lineno,
+                      f"the symbol write at line {miss.lineno} (`{norm(miss.test)}`) has no fallback for `tag already present but node never "
+                      f"processed`, unlike the other symbol write of _propagate_from_stmt: tags are keyed by symbol id and the work-list by node, "
+                      f"so a re-initialised variable that was tainted before is never explored from its new definition and the flow through "
+                      f"it is lost")
+    elif sites and all(fb for _, fb in sites):
+        rep.holds("C10.R5", key, TA, sites[0][0].lineno, f"{len(sites)} symbol write(s), each with the `not in _processed_nodes` fallback")
+    elif sites:
+        rep.unknown("C10.R5", key, TA, sites[0][0].lineno, "no symbol write has the fallback; nothing to compare")
     key = f"{TA}::PathFinder._enqueue::deduplicates"
     ok = enq is not None and any(isinstance(n, ast.If) and isinstance(n.test, ast.Compare) and isinstance(n.test.ops[0], ast.In)
                                  and any(isinstance(s, ast.Return) for s in n.body) for n in walk_no_nested(enq.node))
@@ -347,6 +371,8 @@ def run(model: RepoModel, rep, tier: str):
                           + ": tags are keyed by symbol/state id, not by graph position, so no structural pre-filter is sound; flows through "
                             "globals, closures and re-used variables are dropped", path=fcfg.describe_path(pth or []))
     check_summary_accumulates(model, rep, "C10.R6")
+    from .c07 import _r4_keyword_order
+    _r4_keyword_order(model, rep, "C10.R8")
 
 
 def check_summary_accumulates(model: RepoModel, rep, RID: str, declare: bool = False):
@@ -414,6 +440,10 @@ def _text(old, new):
 
 
 MUTANTS = [
+    ("receiver-writeback-without-unprocessed-fallback", TA,
+     _text("                            self._enqueue(worklist, in_worklist, pred)\n                        else:\n                            if getattr(self, \"_processed_nodes\", None) is not None and pred not in self._processed_nodes:\n                                self._enqueue(worklist, in_worklist, pred)\n",
+           "                            self._enqueue(worklist, in_worklist, pred)\n"),
+     "never-processed nodes are explored"),
     ("first-sink-only", TA,
      _text("            elif self.rule_applier.apply_field_write_sink_rules(node):\n                node_list.append(node)\n",
            "            elif self.rule_applier.apply_field_write_sink_rules(node):\n                node_list.append(node)\n                break\n"),
